@@ -529,10 +529,14 @@ def _default(sort):
         return z3.BoolVal(False)
     if sort == Ref:
         return NULL
-    if z3.is_bv_sort(sort):
+    if sort.kind() == z3.Z3_BV_SORT:
         return z3.BitVecVal(0, sort.size())
-    if z3.is_array_sort(sort):
-        doms = [sort.domain_n(i) for i in range(sort.arity())] if hasattr(sort, "arity") else [sort.domain()]
+    if sort.kind() == z3.Z3_ARRAY_SORT:
+        try:
+            n = z3.Z3_get_array_arity(sort.ctx_ref(), sort.ast)
+            doms = [sort.domain_n(i) for i in range(n)]
+        except Exception:
+            doms = [sort.domain()]
         return _const_array(doms, _default(sort.range()))
     return z3.Const("dflt!" + str(sort), sort)
 
